@@ -950,11 +950,23 @@ extern "C" void h_step() {
         const MN me = m.e[0];
 #if SEL == 0
         *v += (const V &)*e0;
-#else
-        *v += Memory::Move(*e0);
-        mn_clear(m.e[0]);
-#endif
         m_push(m, me);
+#else
+        // finding C12-append-moved-member: when the array has to grow, Array::operator+=(Type_T&&) releases the old storage
+        // before it moves `item` out of it (the const& overload copies first)
+        const bool grows = (v->GetArray()->Size() == v->GetArray()->Capacity());
+#ifdef KF_ONLY_C12_append_moved_member
+        vf_assume(grows);
+#endif
+#ifdef KF_EXCL_C12_append_moved_member
+        if (!grows)
+#endif
+        {
+            *v += Memory::Move(*e0);
+            mn_clear(m.e[0]);
+            m_push(m, me);
+        }
+#endif
     }
 #endif
 
